@@ -4,7 +4,7 @@ Lock-step history exploration against a value-semantics namespace model (one pla
 condition is checked on every node of every tree after every attach / declare / re-declare / remove, breadth-first over
 real-state signatures that include the partition of nodes by nsmap *object identity* (the hidden state that matters).
 """
-from vlib import emlkit
+from vlib import emlkit, snapshot
 from vlib.emlkit import Node
 from vlib.models.forest import Forest
 from metapype.model import metapype_io
@@ -23,7 +23,7 @@ ASSUMPTIONS = [
     "fix_nsmap / set_nsmap are outside the quantifier's operation set",
 ]
 REQUIRED = ["steps", "attach_steps", "declare_steps", "redeclare_steps", "remove_steps", "redeclare_on_node_sharing_parent_map",
-            "frame_checks_outside_subtree", "states_expanded"]
+            "frame_checks_outside_subtree", "states_expanded", "attachments_made_by_reference_expansion"]
 EXHAUSTIVE = {"quick": False, "thorough": False}
 
 PFX = ("a", "b")
@@ -343,6 +343,88 @@ def random_history(ctx, hist_no):
     emlkit.discard(*nodes)
 
 
+def expansion_attaches(ctx, cases):
+    """Attachments the library performs itself: references.expand puts copies of the referenced element's children below the
+    referencing element.  The referencing element (or an ancestor the source does not share) declares prefixes the source never
+    saw; they must be visible in everything attached below it, the copies' own bindings win, nothing outside changes."""
+    from metapype.eml import references
+    rng = ctx.rng
+    prefixes, uris = ("a", "b", "c", "e\u0301"), ("u1", "u2", "u3")
+    for case in range(cases):
+        root = Node("dataset")
+        decls = []
+
+        def declare(where, node):
+            p, u = rng.choice(prefixes), rng.choice(uris)
+            node.add_namespace(p, u)
+            decls.append([where, p, u])
+
+        for _ in range(rng.choice([0, 1, 2])):
+            declare("root", root)
+        src = Node("creator")
+        src.add_attribute("id", "party-1")
+        root.add_child(src)
+        for _ in range(rng.choice([0, 0, 1])):
+            declare("source", src)
+        kids = []
+        for nm in rng.sample(["individualName", "organizationName", "address", "phone"], rng.randint(1, 3)):
+            k = Node(nm, content="x")
+            src.add_child(k)
+            g = Node("verifBelow", content="y")
+            k.add_child(g)
+            kids += [k, g]
+        for _ in range(rng.choice([0, 0, 1])):
+            declare("source-child", rng.choice(kids))
+        wrapper = Node("project")
+        root.add_child(wrapper)
+        for _ in range(rng.choice([0, 1])):
+            declare("wrapper", wrapper)
+        dest = Node("personnel")
+        wrapper.add_child(dest)
+        for _ in range(rng.choice([1, 1, 2])):
+            declare("destination", dest)
+        before_sib = Node("verifSiblingOfReference")
+        if rng.random() < 0.4:
+            dest.add_child(before_sib)
+        dest.add_child(Node("references", content="party-1"))
+        wit = {"expansion": decls, "source_children": [k.name for k in src.children]}
+        below_dest = {id(n) for n in snapshot.walk(dest)}
+        outside = [n for n in snapshot.walk(root) if id(n) not in below_dest]
+        before = [dict(n.nsmap) for n in outside]
+        src_maps = [dict(n.nsmap) for n in snapshot.walk(src)[1:]]
+        dmap = dict(dest.nsmap)
+        try:
+            references.expand(root)
+        except Exception as e:
+            ctx.violation(f"crash:expand:{type(e).__name__}@{emlkit.raise_site(e)}", f"expand raised {e!r}", wit)
+            emlkit.discard(root)
+            continue
+        ctx.evaluated()
+        ctx.count("attachments_made_by_reference_expansion")
+        for n, m in zip(outside, before):
+            if dict(n.nsmap) != m:
+                ctx.violation("leaks-outside-subtree:expand", f"expanding a reference below <personnel> changed the bindings of <{n.name}> outside it: "
+                                                              f"{m} -> {dict(n.nsmap)}", wit)
+                break
+        copies = [n for c in dest.children if c is not before_sib for n in snapshot.walk(c)]
+        if len(copies) == len(src_maps):
+            for n, own in zip(copies, src_maps):
+                exp = dict(dmap)
+                exp.update(own)
+                got = dict(n.nsmap)
+                if not set(dmap) <= set(got):
+                    ctx.violation("attach:parent-prefix-not-visible-in-child|expand", f"<{n.name}> attached below the referencing element by expand shows "
+                                                                                     f"{got}; the referencing element shows {dmap}", wit)
+                    break
+                if n.parent is dest and got != exp:
+                    ctx.violation("attach:child-bindings-differ|expand", f"<{n.name}> attached by expand shows {got}, expected {exp}", wit)
+                    break
+        else:
+            ctx.count("expansions_with_unexpected_shape")
+        ctx.distinct(("expand", case, repr(decls)))
+        emlkit.discard(root)
+
+
 def run(ctx, params):
     if params.get("repo_tests"):
         from vlib import repotests
@@ -354,6 +436,7 @@ def run(ctx, params):
     for h in range(params["random"]):
         random_history(ctx, h)
         ctx.count("random_histories")
+    ctx.case(expansion_attaches, ctx, min(3000, max(40, params["random"])), seconds=300.0)
 
 
 def replay(ctx, witness):
@@ -362,6 +445,9 @@ def replay(ctx, witness):
         repotests.run(ctx, PROPERTY)
         ctx.distinct(1)
         ctx.distinct(2)
+        return
+    if "expansion" in witness:
+        expansion_attaches(ctx, 400)
         return
     n = witness["n"]
     if witness["init"] == "two-imports":
